@@ -56,4 +56,35 @@ def segGaps (union : List Nat) (base : Nat) (asc : List Nat) : Bool :=
   | none => false
   | some hi => union.any (fun i => base < i && i ≤ hi && !asc.contains i)
 
+/-- the acceptor on one replica's event list: every event accepted, from state `r` -/
+def acceptFrom (r : Rep) : List Ev → Bool
+  | [] => true
+  | ev :: evs =>
+    match r.step ev with
+    | (r', none) => acceptFrom r' evs
+    | (_, some _) => false
+
+def acceptRep (evs : List Ev) : Bool := acceptFrom {} evs
+
+/-- the property's own reading of a replica trace, independent of the acceptor's
+    bookkeeping: the runs of applied indices between restores, oldest first, each with the
+    index it started from (0, or the restore index) -/
+def segmentsFrom : Nat → List Nat → List Ev → List (Nat × List Nat)
+  | base, cur, [] => [(base, cur)]
+  | base, cur, .apply cmds _ :: r => segmentsFrom base (cur ++ cmds.map (·.1)) r
+  | base, cur, .restore k _ :: r => (base, cur) :: segmentsFrom k [] r
+  | base, cur, _ :: r => segmentsFrom base cur r
+
+def segments (evs : List Ev) : List (Nat × List Nat) := segmentsFrom 0 [] evs
+
+/-- cross-replica agreement bookkeeping for one slot: index ↦ proposal id -/
+def unionAdd (u : List (Nat × Nat)) (p : Nat × Nat) : Option (List (Nat × Nat)) :=
+  match u.find? (fun q => q.1 == p.1) with
+  | some q => if q.2 = p.2 then some u else none
+  | none => some (p :: u)
+
+def unionAll (u : List (Nat × Nat)) : List (Nat × Nat) → Option (List (Nat × Nat))
+  | [] => some u
+  | p :: ps => (unionAdd u p).bind (fun u' => unionAll u' ps)
+
 end WK.C12
